@@ -257,7 +257,7 @@ func c14Run(t *testing.T, p c14Plan) (res vfResult) {
 				res.failf("contacted-before-complete", "request buffering: target contacted at %v, the client's last body chunk was sent at %v; %s", seen[0].At, start+lastChunkAt, desc)
 				return
 			}
-			targetDone := seen[0].BodyAt + respDur
+			targetDone := seen[0].BodyAt + vfMs(vfRawThinkMs) + respDur
 			switch {
 			case p.Ending == "target-reset-before-head":
 				if resp.Resp == nil || resp.Resp.StatusCode != http.StatusBadGateway {
